@@ -43,11 +43,29 @@ def inv_map(ctx, d, labels, what):
     return pos if ok else None
 
 
+def _warm(H):
+    """every matrix function once with default arguments (results discarded)"""
+    for f in (xgi.incidence_matrix, xgi.adjacency_matrix, xgi.degree_matrix, xgi.intersection_profile, xgi.clique_motif_matrix,
+              xgi.normalized_hypergraph_laplacian, lambda h: xgi.laplacian(h, 1), lambda h: xgi.laplacian(h, 2),
+              lambda h: xgi.multiorder_laplacian(h, [1, 2], [1, 1]), lambda h: xgi.adjacency_tensor(h, 1), lambda h: xgi.adjacency_tensor(h, 2),
+              lambda h: xgi.incidence_matrix(h, order=1), lambda h: xgi.adjacency_matrix(h, order=1)):
+        try:
+            f(H)
+        except Exception:
+            pass
+
+
+def _build(ctx, p, shape):
+    if p.get("warm"):
+        return nets.build_H_warm(ctx, shape, _warm)
+    return nets.build_H(ctx, shape)
+
+
 @harness("C12.matrices", raises_are_violations=True)
 def matrices(ctx, p):
     shape = _shape(p["shape"])
     N, M, edges = shape
-    H, nl, el, c = nets.build_H(ctx, shape)
+    H, nl, el, c = _build(ctx, p, shape)
     oi = ctx.choose("order", 5)
     order = [None, 0, 1, 2, 3][oi]
     s = 1 + ctx.choose("s", 3)
@@ -112,7 +130,7 @@ def matrices(ctx, p):
 def laplacians(ctx, p):
     shape = _shape(p["shape"])
     N, M, edges = shape
-    H, nl, el, c = nets.build_H(ctx, shape)
+    H, nl, el, c = _build(ctx, p, shape)
     d = 1 + ctx.choose("order", 3)
     rescale = ctx.flag("rescale_per_node")
     sparse = ctx.flag("sparse")
@@ -225,12 +243,17 @@ def spec(tier, seed):
     for s in shp:
         units.append(("C12.matrices", {"shape": s}))
         units.append(("C12.laplacians", {"shape": s}))
+        if s[0] and s[1] and (tier != "quick" or s[0] <= 3):
+            # the same state reached through a history on one object (caches keyed by object or size)
+            units.append(("C12.matrices", {"shape": s, "warm": True}))
+            units.append(("C12.laplacians", {"shape": s, "warm": True}))
     return {
         "units": units,
         "caps": {"paths": 50000, "wall": 900},
         "level": "other",
         "explanation": "The numeric kernels are scipy/numpy and a symbolic value cannot cross into them, so shapes (all hypergraph incidence structures up to isomorphism within the bound, including isolated nodes, empty/duplicate/singleton edges) and the option grid are enumerated; what z3 quantifies is the labelling - node labels and edge ids are unbounded solver integers, so every statement 'with the returned index maps' is decided for all integer labelings at once (this is where a label-as-position confusion shows) - and the small parameters order, s, weighted, sparse, rescale_per_node, normalized are solver-chosen forks. Oracles are brute-force matrices from the incidence shape. Positive semidefiniteness is not decided (eigenvalues are floating point); it follows from symmetry and the B^T B form.",
-        "bounds": {"shapes": f"{len(shp)} shapes", "order": "None, 0..3", "s": "1..3", "laplacian order": "1..3", "multi-order": "orders [1,2,3], weights [1, w, 0.5], w in {1,2}"},
+        "bounds": {"shapes": f"{len(shp)} shapes", "order": "None, 0..3", "s": "1..3", "laplacian order": "1..3", "multi-order": "orders [1,2,3], weights [1, w, 0.5], w in {1,2}",
+                   "histories": "each shape also reached on one object from the complementary incidence after every matrix function ran once (same node and edge counts)"},
         "assumptions": ["labels: unbounded integers", "floats compared with relative tolerance 1e-9"],
         "outside": ["positive semidefiniteness", "string labels", "custom incidence weight functions"],
     }
